@@ -18,12 +18,12 @@ RULE = ("0-5 parameters, values in {int, float, None, str (incl. multi-character
         "add / remove / build / build twice / mutate a returned dict / rejected non-str name (AttributeError), duplicate "
         "(KeyError), remove unknown (KeyError); non-trivial = >=2 multi-valued parameters live at a build and >=1 remove "
         "or rejected op before it; distinct = (declared lengths and kinds at each build, op kinds)"
-        "; also: equal-valued values of different type / sign (1, 1.0, True, 0.0, -0.0), str-subclass strings, agent classes / objects as single values, the constructor dict checked for aliasing")
+        "; also: equal-valued values of different type / sign (1, 1.0, True, 0.0, -0.0), str-subclass strings, agent classes / objects as single values, the constructor dict checked for aliasing, collections whose elements are unhashable (lists, dicts, rows of a 2-D array)")
 COMPONENTS = {"real": ["ECAgent.Batching.ParameterList.__init__ / add_parameter / remove_parameter / build"],
               "stub": ["none - the reference is an independent nested-loop product"]}
 PROBES = ["empty_collection", "no_parameters", "repeated_values", "string_value", "rebuild_after_mutation", "ndarray_value",
           "range_value", "constructor_dict", "reject_nonstr", "reject_duplicate", "reject_unknown", "constructor_rejected",
-          "single_value_is_agent_class_or_object", "string_value_of_a_str_subclass"]
+          "single_value_is_agent_class_or_object", "string_value_of_a_str_subclass", "values_with_unhashable_elements"]
 TECHNIQUE = "deterministic simulation: seeded declare/remove/build histories with injected rejected declarations and caller-side mutation vs an independent nested-loop product"
 LEVEL_TEXT = ("Seeded search over declaration histories; every build must equal an independent nested-loop product (first-declared "
               "parameter slowest), be repeatable, return fresh dictionaries and leave declaration and caller's value objects "
@@ -51,6 +51,10 @@ def gen_val(rng):
     if r < 0.34:
         return {"k": "strsub", "v": rng.choice(["moore", "ab", ""]), "how": rng.choice(["subclass", "numpy"])}
     elems = [rng.choice([0, 1, 2, 3, 1, "s", "tt", None, 2.5, 1.0, True, 0.0, False, "-0.0", 2.0]) for _ in range(n)]
+    if rng.random() < 0.12:     # values that are themselves containers (start positions, rule sets): unhashable elements
+        elems = [rng.choice([[0, 0], [5, 5], [0, 0], {"rule": 1}, [], {"a": [1, 2]}, [[1], [2]]]) for _ in range(max(n, 1))]
+    if r >= 0.87 and rng.random() < 0.3:
+        return {"k": "ndarray2d", "v": [[rng.randint(0, 4) for _ in range(2)] for _ in range(n)]}
     if r < 0.6:
         return {"k": "list", "v": elems}
     if r < 0.75:
@@ -104,6 +108,8 @@ def decode(spec):
         return range(int(spec["v"]))
     if k == "ndarray":
         return np.array(spec["v"], dtype=np.int64)
+    if k == "ndarray2d":
+        return np.array(spec["v"], dtype=np.int64).reshape(len(spec["v"]), 2)
     raise ValueError(k)
 
 
@@ -121,6 +127,8 @@ def as_list(spec):
         return list(range(int(spec["v"])))
     if k == "ndarray":
         return list(np.array(spec["v"], dtype=np.int64))      # iterating the declared array yields numpy scalars
+    if k == "ndarray2d":
+        return list(np.array(spec["v"], dtype=np.int64).reshape(len(spec["v"]), 2))     # ... or its rows
     return [_el(v) for v in spec["v"]]
 
 
@@ -167,6 +175,8 @@ def eq(a, b):
         return a is b
     if type(a) is not type(b):
         return False
+    if isinstance(a, np.ndarray):
+        return a.dtype == b.dtype and a.shape == b.shape and bool(np.array_equal(a, b))
     try:
         return bool(a == b) and repr(a) == repr(b)
     except Exception:
@@ -245,8 +255,10 @@ def execute(sc, ctx):
         for _, s in decl:
             if s["k"] == "str":
                 ctx.probe("string_value")
-            if s["k"] == "ndarray":
+            if s["k"] in ("ndarray", "ndarray2d"):
                 ctx.probe("ndarray_value")
+            if s["k"] == "ndarray2d" or (s["k"] in ("list", "tuple") and any(isinstance(e, (list, dict)) for e in s["v"])):
+                ctx.probe("values_with_unhashable_elements")
             if s["k"] == "range":
                 ctx.probe("range_value")
             if s["k"] == "agentclass":
